@@ -353,4 +353,88 @@ func Gen(run *vlib.Run, seed uint64, tier string) {
 		}
 		one(run, "font", d, gl, genOrc(rr), label, "kind:"+o.kind)
 	}
+
+	// (iii) boundary stream: one-glyph fonts, the list [0], every glyph in
+	// font order and reversed, deltas that wrap around 65536, cmap codes at the
+	// format limits, every code of the built-in encoding in use
+	nb := vlib.Count(tier, 60, 1500)
+	for i := 0; i < nb; i++ {
+		rr := r.Fork(fmt.Sprint("b", i))
+		o := &genOpts{kind: kinds[i%3], n: rr.Range(2, 12), dense: true, wrapDelta: true}
+		var gl []int
+		label := ""
+		switch i % 6 {
+		case 0:
+			o.n = 1
+			label = "boundary:one-glyph-font"
+		case 1:
+			label = "boundary:list-only-notdef"
+		case 2:
+			label = "boundary:all-glyphs-in-order"
+		case 3:
+			label = "boundary:all-glyphs-reversed"
+		case 4:
+			label = "boundary:cmap-code-limits"
+		case 5:
+			o.kind = "cff"
+			o.n = rr.Range(257, 300)
+			label = "boundary:encoding-full"
+		}
+		d := genFont(rr, o)
+		switch i % 6 {
+		case 0, 1:
+			gl = []int{0}
+		case 2:
+			for g := 0; g < o.n; g++ {
+				gl = append(gl, g)
+			}
+		case 3:
+			gl = []int{0}
+			for g := o.n - 1; g > 0; g-- {
+				gl = append(gl, g)
+			}
+		case 4:
+			d.CMaps = []CMap{
+				{PID: 0, EID: 4, Fmt: 12, M: [][2]int{{1, 1}, {0xFFFF, o.n - 1}, {0x10000, 1}, {0x10FFFF, o.n - 1}}},
+				{PID: 3, EID: 1, Fmt: 4, M: [][2]int{{1, o.n - 1}, {0xFFFE, 1}, {0xFFFF, o.n - 1}}},
+			}
+			gl = genList(rr, o.n)
+		case 5:
+			d.Enc = make([]int, 256)
+			for c := 0; c < 256; c++ {
+				d.Enc[c] = 1 + (c*7)%255 // glyphs 1..255, each with one code, plus code sharing
+			}
+			d.Enc[255] = 255
+			gl = genList(rr, o.n)
+		}
+		one(run, "font", d, gl, genOrc(rr), label, "kind:"+o.kind)
+	}
+
+	// (iv) large fonts (compared with the model) ...
+	nlg := vlib.Count(tier, 6, 90)
+	for i := 0; i < nlg; i++ {
+		rr := r.Fork(fmt.Sprint("l", i))
+		o := &genOpts{kind: kinds[i%3], n: rr.Range(200, 700), dense: rr.Bool(), wrapDelta: rr.Bool()}
+		d := genFont(rr, o)
+		one(run, "font", d, genList(rr, o.n), genOrc(rr), "large", "kind:"+o.kind)
+	}
+	// ... and very large ones, up to the uint16 limit of glyph ids (oracle only:
+	// the association-list model is quadratic)
+	if tier == "thorough" {
+		for i, n := range []int{5000, 20000, 65535, 65535, 65535} {
+			rr := r.Fork(fmt.Sprint("h", i))
+			o := &genOpts{kind: kinds[i%3], n: n, wrapDelta: true}
+			d := genFont(rr, o)
+			var gl []int
+			if i == 2 {
+				gl = []int{0}
+				for g := n - 1; g > 0; g-- { // every glyph: new ids run up to 65534
+					gl = append(gl, g)
+				}
+			} else {
+				gl = genList(rr, n)
+			}
+			oneOracleOnly(run, "font", d, gl, "huge", fmt.Sprintf("glyphs:%d", n), "kind:"+o.kind)
+		}
+	}
 }
